@@ -33,7 +33,7 @@ TSAN = ["-fsanitize=thread"]
 ENGINES = {
     "iosim": {
         "tus": [("sim/iosim/main.cpp", ASAN), ("sim/iosim/fmt_json.cpp", ASAN), ("sim/iosim/fmt_csv.cpp", ASAN), ("sim/iosim/fmt_cbor.cpp", ASAN),
-                ("sim/iosim/fmt_msgpack.cpp", ASAN), ("sim/iosim/fmt_ubjson.cpp", ASAN), ("sim/iosim/fmt_bson.cpp", ASAN),
+                ("sim/iosim/fmt_msgpack.cpp", ASAN), ("sim/iosim/fmt_ubjson.cpp", ASAN), ("sim/iosim/fmt_bson.cpp", ASAN), ("sim/iosim/fmt_toon.cpp", ASAN),
                 ("sim/core/worker.cpp", ASAN), ("sim/core/ledger.cpp", ASAN)],
         "link": ASAN,
     },
